@@ -132,48 +132,13 @@ type c08Note struct {
 	} `json:"who"`
 }
 
-// barrier: the helper subscribes to a fresh channel under the watched one; when the watcher has
-// read that 'subscribe' (and the following 'unsubscribe'), every earlier notification has been
-// delivered (one FIFO queue, synchronous publish). Returns with the notifications still in the
-// watcher's inbox.
+// barrier: logical drain of the presence queue (see Broker.PresenceBarrier).
 func (e *c08Env) barrier() error {
 	e.sentinel++
-	ch := fmt.Sprintf("a/s%d/", e.sentinel)
-	if rc, _, err := e.helper.Subscribe(e.kAll + "/" + ch); err != nil || rc != 0 {
-		return fmt.Errorf("sentinel subscribe: rc=%d %v", rc, err)
-	}
-	if err := e.helper.Unsubscribe(e.kAll + "/" + ch); err != nil {
+	if err := e.b.PresenceBarrier(e.helper, e.kAll, e.sentinel); err != nil {
 		return err
 	}
-	deadline := time.Now().Add(30 * time.Second)
-	seen := 0
-	var kept []Pub
-	for seen < 2 {
-		if err := e.watcher.DrainInto(); err != nil {
-			return err
-		}
-		pubs, _ := e.watcher.Take()
-		for _, p := range pubs {
-			var n c08Note
-			if p.Topic == "emitter/presence/" && json.Unmarshal([]byte(p.Payload), &n) == nil && n.Channel == ch {
-				seen++
-				continue
-			}
-			kept = append(kept, p)
-		}
-		if seen >= 2 {
-			break
-		}
-		rem := time.Until(deadline)
-		if rem <= 0 {
-			return ErrWatchdog
-		}
-		if _, eof, to := e.watcher.C.WaitData(rem); eof || to {
-			return ErrWatchdog
-		}
-	}
-	e.watcher.inbox = append(kept, e.watcher.inbox...)
-	return nil
+	return e.watcher.DrainInto()
 }
 
 func presenceReq(id uint16, key, channel string, changes bool) []byte {
